@@ -58,7 +58,9 @@ func Eval(s Stmt, d V) (Tri, Why) {
 		switch s.Kind {
 		case "==":
 			if hasNaN(s.Val) || hasNaN(v) {
-				return Unresolved, WUnspecified
+				// NaN equals nothing, itself included (IEEE 754, Go's ==): whichever side holds one -
+				// alone or inside a list or map - the two values are not equal
+				return False, WNone
 			}
 			if hasUint(s.Val) || hasUint(v) {
 				// an integer above MaxInt64 next to a value of another scalar kind or another
